@@ -42,12 +42,94 @@ fn main() {
 }
 "#;
 
+/// A call chain that changes stacks: stage k runs `rec` to a given depth on its own stack (a heap
+/// buffer = lower addresses than the main stack, or a buffer inside main's frame = higher addresses than
+/// a heap stack), then switches to the next stage through an assembly routine with complete CFI. Walking
+/// outwards the CFA therefore goes up *and down*.
+pub const SWITCH_DEBUGGEE: &str = r##"
+use std::arch::global_asm;
+use std::hint::black_box;
+use std::sync::atomic::{AtomicUsize, Ordering::Relaxed};
+global_asm!(
+    r#"
+    .text
+    .globl call_on_stack
+    .type call_on_stack,@function
+call_on_stack:
+    .cfi_startproc
+    push rbp
+    .cfi_def_cfa_offset 16
+    .cfi_offset rbp, -16
+    mov rbp, rsp
+    .cfi_def_cfa_register rbp
+    mov rax, rdi
+    mov rdi, rsi
+    mov rsp, rdx
+    call rax
+    mov rsp, rbp
+    pop rbp
+    .cfi_def_cfa rsp, 8
+    ret
+    .cfi_endproc
+    .size call_on_stack, .-call_on_stack
+"#
+);
+extern "C" {
+    fn call_on_stack(f: extern "C" fn(usize) -> usize, arg: usize, stack_top: *mut u8) -> usize;
+}
+const Z: AtomicUsize = AtomicUsize::new(0);
+static DEPTHS: [AtomicUsize; 8] = [Z; 8];
+static TOPS: [AtomicUsize; 8] = [Z; 8];
+static NSTAGES: AtomicUsize = AtomicUsize::new(0);
+#[inline(never)]
+#[no_mangle]
+pub extern "C" fn anchor(n: u64) -> u64 { black_box(n) + 1 }
+#[inline(never)]
+fn rec(n: usize, stage: usize) -> usize {
+    let l = n + 1000;
+    if n == 0 { next_stage(stage) + black_box(l) } else { rec(n - 1, stage) + black_box(l) }
+}
+#[inline(never)]
+fn next_stage(stage: usize) -> usize {
+    if stage >= NSTAGES.load(Relaxed) { return anchor(stage as u64) as usize; }
+    let r = unsafe { call_on_stack(tramp, stage, TOPS[stage].load(Relaxed) as *mut u8) };
+    black_box(r) + 1
+}
+#[inline(never)]
+extern "C" fn tramp(stage: usize) -> usize { rec(DEPTHS[stage].load(Relaxed), stage + 1) + 1 }
+fn main() {
+    // argument: d0,k1:d1,k2:d2,...  d0 = depth on the main stack, k = h (heap stack) or m (stack inside main's frame)
+    let plan = std::env::args().nth(1).unwrap_or_default();
+    let mut main_bufs = [0u8; 4 * 64 * 1024];
+    let mut heap_bufs: Vec<Vec<u8>> = vec![];
+    let mut parts = plan.split(',');
+    let d0: usize = parts.next().and_then(|s| s.parse().ok()).unwrap_or(0);
+    let mut used_main = 0usize;
+    for (k, p) in parts.enumerate().take(8) {
+        let (kind, d) = p.split_once(':').unwrap_or(("h", "0"));
+        DEPTHS[k].store(d.parse().unwrap_or(0), Relaxed);
+        let top = if kind == "m" && used_main < 4 {
+            used_main += 1;
+            main_bufs.as_mut_ptr() as usize + used_main * 64 * 1024
+        } else {
+            heap_bufs.push(vec![0u8; 64 * 1024]);
+            let b = heap_bufs.last_mut().unwrap();
+            b.as_mut_ptr() as usize + b.len()
+        };
+        TOPS[k].store(top & !0xf, Relaxed);
+        NSTAGES.store(k + 1, Relaxed);
+    }
+    let r = rec(d0, 0);
+    println!("result {} {}", r, black_box(&main_bufs)[0]);
+}
+"##;
+
 fn read_u64(pid: nix::unistd::Pid, addr: u64) -> Option<u64> {
     e2e::proc_mem_read(pid, addr, 8).ok().map(|b| u64::from_le_bytes(b.try_into().unwrap()))
 }
 
 /// (ip, cfa) of every frame by following saved frame pointers, innermost first
-fn fp_chain(pid: nix::unistd::Pid, max: usize) -> Vec<(u64, u64)> {
+fn fp_chain(pid: nix::unistd::Pid, max: usize, one_stack: bool) -> Vec<(u64, u64)> {
     let regs = match nix::sys::ptrace::getregs(pid) {
         Ok(r) => r,
         Err(_) => return vec![],
@@ -59,7 +141,7 @@ fn fp_chain(pid: nix::unistd::Pid, max: usize) -> Vec<(u64, u64)> {
         if ret == 0 {
             break;
         }
-        if saved != 0 && saved <= rbp {
+        if one_stack && saved != 0 && saved <= rbp {
             // not a frame-pointer frame any more
             out.push((ret, saved + 16));
             break;
@@ -83,9 +165,20 @@ pub fn run(args: &[String]) -> i32 {
             return 3;
         }
     };
+    let bin_switch = match e2e::compile(&scratch, "swdebuggee", SWITCH_DEBUGGEE, &["-C", "force-frame-pointers=yes"], None) {
+        Ok(b) => b,
+        Err(e) => {
+            eprintln!("compile failed: {e}");
+            return 3;
+        }
+    };
     // address range of main, to cut both walks at the user's outermost frame
-    let nm = std::process::Command::new("nm").arg("-S").arg("--defined-only").arg(&bin).output().ok();
-    let nm_out = nm.map(|o| String::from_utf8_lossy(&o.stdout).to_string()).unwrap_or_default();
+    let nm_of = |b: &std::path::Path| {
+        let nm = std::process::Command::new("nm").arg("-S").arg("--defined-only").arg(b).output().ok();
+        nm.map(|o| String::from_utf8_lossy(&o.stdout).to_string()).unwrap_or_default()
+    };
+    let nm_plain = nm_of(&bin);
+    let nm_switch = nm_of(&bin_switch);
     let mut cases = CasesFile::new(&["Model.Unwind"], "unwind_case", "unwind_check");
     let mut hist: BTreeMap<String, u64> = BTreeMap::new();
     let mut seen = HashSet::new();
@@ -102,13 +195,23 @@ pub fn run(args: &[String]) -> i32 {
             _ => rng.range(120, 260),
         } as usize;
         let kinds = [b'f', b'e', b'c', b'g', b'h', b'x'];
-        let shape: String = if case_no % 5 == 0 {
+        let switching = case_no % 4 == 3;
+        let shape: String = if switching {
+            // 1-5 stack switches, heap and main-frame stacks mixed so that the CFA goes down as well as up
+            let n = rng.range(1, 5);
+            let mut p = format!("{}", rng.range(0, 40));
+            for _ in 0..n {
+                p.push_str(&format!(",{}:{}", if rng.chance(1, 2) { "h" } else { "m" }, rng.range(0, 60)));
+            }
+            p
+        } else if case_no % 5 == 0 {
             // pure self recursion through one function: every return address repeats
             std::iter::repeat('f').take(depth).collect()
         } else {
             (0..depth).map(|_| *rng.pick(&kinds) as char).collect()
         };
-        let mut s = match e2e::launch(&bin, &[shape.clone()]) {
+        let (bin_now, nm_out, bin_name) = if switching { (&bin_switch, &nm_switch, "swdebuggee") } else { (&bin, &nm_plain, "btdebuggee") };
+        let mut s = match e2e::launch(bin_now, &[shape.clone()]) {
             Ok(s) => s,
             Err(e) => {
                 errors.push(e);
@@ -131,16 +234,16 @@ pub fn run(args: &[String]) -> i32 {
         let pid = s.pid_now();
         // load bias = runtime address of `main` symbol minus its file address: take it from /proc/maps
         let maps = e2e::proc_maps(pid);
-        let bias = maps.iter().find(|m| m.path.ends_with("btdebuggee")).map(|m| m.start - m.offset).unwrap_or(0);
+        let bias = maps.iter().find(|m| m.path.ends_with(bin_name)).map(|m| m.start - m.offset).unwrap_or(0);
         let main_range = nm_out.lines().find_map(|l| {
             let p: Vec<&str> = l.split_whitespace().collect();
-            if p.len() == 4 && p[3].ends_with("4main17h") || (p.len() == 4 && p[3].contains("btdebuggee4main")) {
+            if p.len() == 4 && p[3].ends_with("4main17h") || (p.len() == 4 && p[3].contains(&format!("{bin_name}4main"))) {
                 Some((u64::from_str_radix(p[0], 16).ok()? + bias, u64::from_str_radix(p[1], 16).ok()?))
             } else {
                 None
             }
         });
-        let truth_all = fp_chain(pid, 2000);
+        let truth_all = fp_chain(pid, 2000, !switching);
         let cut = main_range.and_then(|(lo, sz)| truth_all.iter().position(|(ip, _)| *ip >= lo && *ip < lo + sz));
         let Some(cut) = cut else {
             errors.push(format!("main frame not found in the frame-pointer chain (shape {shape}, {} frames)", truth_all.len()));
@@ -170,6 +273,10 @@ pub fn run(args: &[String]) -> i32 {
         }
         *hist.entry(format!("frames:{}", match truth.len() { 0..=10 => "<=10", 11..=100 => "11-100", 101..=511 => "101-511", _ => ">=512" })).or_default() += 1;
         *hist.entry(format!("repeated_return_address:{repeats}")).or_default() += 1;
+        if switching {
+            let downs = truth.windows(2).filter(|w| w[1].1 <= w[0].1).count();
+            *hist.entry(format!("stack_switching:cfa_decreases_outwards:{}", downs.min(3))).or_default() += 1;
+        }
         if samples.len() < 3 {
             samples.push(serde_json::json!({"shape": shape, "true_frames": truth.len(), "reported_frames": bt.len(), "repeated_return_address": repeats}));
         }
